@@ -139,6 +139,12 @@ func (c *Ctx) Logf(f string, a ...any) {
 // HarnessError: the machinery itself is broken (not a property verdict). Exit 2.
 func (c *Ctx) HarnessError(f string, a ...any) {
 	fmt.Fprintf(os.Stderr, "HARNESS-ERROR property=%s %s\n", c.ID, fmt.Sprintf(f, a...))
+	if c.NViolations() > 0 {
+		// violations already established are reported; the later breakdown of the machinery
+		// (often a consequence of the same defect) must not hide them
+		c.Cap("stopped by a harness error after the first violations")
+		c.finish(true)
+	}
 	os.Exit(2)
 }
 
@@ -248,4 +254,8 @@ func (c *Ctx) finish(writeEvidence bool) {
 	os.Exit(0)
 }
 
-func (c *Ctx) CapsHit() []string { c.mu.Lock(); defer c.mu.Unlock(); return append([]string{}, c.capped...) }
+func (c *Ctx) CapsHit() []string {
+	c.mu.Lock()
+	defer c.mu.Unlock()
+	return append([]string{}, c.capped...)
+}
